@@ -18,6 +18,23 @@ def evaluate(ctx, cases, res, want_account):
     ctx.shims_used = orch_env.SHIMS_USED
     with ThreadPoolExecutor(6) as ex:
         obs = list(ex.map(lambda c: orch_e2e.run_case(ctx, impl, drv, c), cases))
+
+    def late(ob):
+        # nothing wrong was seen, something expected was not seen in time: the invocation did not finish, or canvas had
+        # started only a prefix of what the model starts when the wait ran out (a loaded machine does that too)
+        if ob.get('hung'):
+            return True
+        r = ob['rounds'][-1] if ob.get('rounds') else None
+        return bool(r and r['model_starts'] != r['impl_starts'] and r['model_starts'][:len(r['impl_starts'])] == r['impl_starts'])
+    for i, ob in enumerate(obs):
+        if late(ob):
+            # repeated alone with six times the waiting time: a real hang or a step that never starts shows again
+            orch_e2e.SCALE = 6.0
+            try:
+                obs[i] = orch_e2e.run_case(ctx, impl, drv, cases[i])
+            finally:
+                orch_e2e.SCALE = 1.0
+            res.count('repeated alone after a wait ran out')
     for case, ob in zip(cases, obs):
         res.evaluations += 1
         key = hashlib.sha1(json.dumps(case, sort_keys=True).encode()).hexdigest()
